@@ -2,13 +2,14 @@
 //! (C13 reuses the query machinery defined here.)
 use elements::confidential::Value;
 use elements::hashes::Hash as _;
-use elements::sighash::{Annex, Prevouts, SighashCache};
+use elements::sighash::{Annex, Prevouts, ScriptPath, SighashCache};
 use elements::taproot::{LeafVersion, TapLeafHash};
 use elements::{BlockHash, EcdsaSighashType, SchnorrSighashType, Script, Sequence, Transaction, TxOut, Txid};
 use serde_json::json;
 
 use crate::engine::*;
-use crate::gen::{self, pool, TxOpts};
+use crate::gen::{self, ext_g2 as gx, pool, TxOpts};
+use crate::refimpl::enc;
 use crate::refimpl::sighash as rs;
 use crate::refimpl::sha256::sha256d;
 use crate::{ensure, ensure_eq};
@@ -45,7 +46,12 @@ pub enum PrevMode {
 pub enum TapApi {
     Generic,
     KeySpend,
+    /// `taproot_script_spend_signature_hash` with a ready `TapLeafHash`
     ScriptSpend,
+    /// `taproot_script_spend_signature_hash` with `ScriptPath::new(script, 0xffffffff, leaf_version)`
+    ScriptPathNew,
+    /// `taproot_script_spend_signature_hash` with `ScriptPath::with_defaults(script)` (leaf version 0xc4)
+    ScriptPathDefaults,
 }
 
 #[derive(Clone, Debug)]
@@ -100,6 +106,27 @@ impl Query {
 pub enum Answer {
     Digest([u8; 32]),
     Err(String),
+    /// the query could not be put to the sighash API at all because a constructor outside the
+    /// property (`Annex::new`, `LeafVersion::from_u8`) refused an argument: not judged, counted
+    Skipped(String),
+}
+
+/// Queries outside the quantifier of C03 / C13 ("Prevouts::All / Prevouts::One for the queried
+/// input", valid input indices): `All` of the wrong length, `One` carrying another input's spent
+/// output under ANYONECANPAY (without ANYONECANPAY this is the stated "single spent output for a
+/// type that needs all" error), an input index beyond the inputs. Neither an error nor a digest
+/// nor the absence of a panic is demanded of them, and they are never put to a cache whose later
+/// answers are judged (a library that, say, accepted a longer `All` slice could fill its caches
+/// from it; every history containing such a query is outside the quantifier as a whole). They
+/// go to a throw-away cache and the outcome is counted (`observe_unstated`).
+pub fn unstated(q: &Query, n_inputs: usize) -> bool {
+    match q {
+        Query::Taproot { idx, ty, prev, .. } => {
+            let acp = (*ty as u8) & 0x80 != 0;
+            *idx >= n_inputs || *prev == PrevMode::AllWrongLen || (*prev == PrevMode::OneWrongIndex && acp && n_inputs >= 2)
+        }
+        _ => false,
+    }
 }
 
 pub struct Case {
@@ -144,6 +171,8 @@ pub fn gen_query(t: &mut Tape, case: &Case, allow_errors: bool) -> Query {
             let leaf = match api {
                 TapApi::KeySpend => None,
                 TapApi::ScriptSpend => Some((gen::gen_script(t, false), 0xc4, 0xffff_ffff)),
+                // never drawn by this (frozen) generator
+                TapApi::ScriptPathNew | TapApi::ScriptPathDefaults => None,
                 TapApi::Generic => {
                     if t.bool() {
                         let ver = t.choose(&[0xc4u8, 0xc0, 0xc2, 0xfe, 0x66, 0x7e]);
@@ -164,6 +193,174 @@ pub fn gen_query(t: &mut Tape, case: &Case, allow_errors: bool) -> Query {
             let idx = if allow_errors && (ty as u8) & 0x80 != 0 && prev == PrevMode::All && t.chance(16) { n + t.below(3) } else { idx };
             Query::Taproot { idx, ty, annex, leaf, prev, api, genesis: t.arr32() }
         }
+    }
+}
+
+
+// ---- extended generators (sub-checks `differential_x`, C13 `histories_x`) --------------------
+// `gen_case` / `gen_query` above are frozen: committed regression replays decode through them.
+
+pub const LEAF_VERSIONS: [u8; 6] = [0xc4, 0xc0, 0xc2, 0xfe, 0x66, 0x7e];
+
+/// `gen_case` plus, drawn afterwards: a compact-size-boundary script on one spent output / one
+/// output, 0xfc..0xfe inputs or outputs, null-valued issuances with entropy / nonce set, spent
+/// outputs carrying a witness.
+pub fn gen_case_x(t: &mut Tape) -> Case {
+    let mut case = gen_case(t);
+    // spent outputs with a witness (no algorithm reads it)
+    for j in 0..case.spent.len() {
+        if t.chance(48) {
+            case.spent[j].witness = gen::gen_out_witness(t);
+        }
+    }
+    // an issuance that is null by value but has entropy / blinding nonce set
+    for j in 0..case.tx.input.len() {
+        if enc::issuance_is_null(&case.tx.input[j].asset_issuance) && t.chance(56) {
+            case.tx.input[j].asset_issuance = gx::null_valued_issuance(t);
+        }
+    }
+    if t.chance(72) {
+        let j = t.below(case.spent.len());
+        case.spent[j].script_pubkey = gx::boundary_script(t);
+    }
+    if t.chance(72) {
+        if case.tx.output.is_empty() {
+            let so = TxOpts { big: false, witness: false, ..TxOpts::default() };
+            case.tx.output.push(gen::gen_txout(t, &so));
+        }
+        let k = t.below(case.tx.output.len());
+        case.tx.output[k].script_pubkey = gx::boundary_script(t);
+    }
+    match t.below(40) {
+        39 => gx::many_inputs(&mut case.tx, &mut case.spent, t.choose(&[0xfdusize, 0xfc, 0xfe])),
+        38 => gx::many_outputs(&mut case.tx, t.choose(&[0xfdusize, 0xfc, 0xfe])),
+        _ => {}
+    }
+    case
+}
+
+fn gen_script_x(t: &mut Tape) -> Script {
+    if t.chance(72) {
+        gx::boundary_script(t)
+    } else {
+        gen::gen_script(t, false)
+    }
+}
+
+/// `gen_query` with boundary-length script code / leaf script / annex, the `ScriptPath` entry of
+/// the script-spend API, and every leaf version for the script-spend API
+pub fn gen_query_x(t: &mut Tape, n: usize, allow_errors: bool) -> Query {
+    let idx = t.below(n);
+    match t.below(3) {
+        0 => Query::Legacy { idx, script: gen_script_x(t), ty: t.choose(&ECDSA_TYPES) },
+        1 => Query::Segwit { idx, script: gen_script_x(t), value: gen::gen_value(t), ty: t.choose(&ECDSA_TYPES) },
+        _ => {
+            let ty = t.choose(&SCHNORR_TYPES);
+            let api = match t.below(8) {
+                0 => TapApi::KeySpend,
+                1 => TapApi::ScriptSpend,
+                2 | 3 => TapApi::ScriptPathNew,
+                4 => TapApi::ScriptPathDefaults,
+                _ => TapApi::Generic,
+            };
+            let annex = if api == TapApi::Generic && t.chance(100) {
+                let l = if t.chance(96) { gx::boundary_len(t) - 1 } else { t.below(40) };
+                let mut a = vec![0x50];
+                if l > 40 {
+                    a.extend(t.filler(l));
+                } else {
+                    a.extend(t.bytes(l));
+                }
+                Some(a)
+            } else {
+                None
+            };
+            let leaf = match api {
+                TapApi::KeySpend => None,
+                TapApi::ScriptSpend | TapApi::ScriptPathNew => Some((gen_script_x(t), t.choose(&LEAF_VERSIONS), 0xffff_ffff)),
+                TapApi::ScriptPathDefaults => Some((gen_script_x(t), 0xc4, 0xffff_ffff)),
+                TapApi::Generic => {
+                    if t.bool() {
+                        let ver = t.choose(&LEAF_VERSIONS);
+                        let pos = t.choose(&[0xffff_ffffu32, 0, 1, 7, 0x1_0000]);
+                        Some((gen_script_x(t), ver, pos))
+                    } else {
+                        None
+                    }
+                }
+            };
+            let prev = match t.below(if allow_errors { 10 } else { 8 }) {
+                0..=3 => PrevMode::All,
+                4..=7 => PrevMode::One,
+                8 => PrevMode::AllWrongLen,
+                _ => PrevMode::OneWrongIndex,
+            };
+            let idx = if allow_errors && (ty as u8) & 0x80 != 0 && prev == PrevMode::All && t.chance(8) { n + t.below(3) } else { idx };
+            Query::Taproot { idx, ty, annex, leaf, prev, api, genesis: t.arr32() }
+        }
+    }
+}
+
+/// histogram labels for the shapes the extended generators add
+pub fn class_x(tx: &Transaction, spent: &[TxOut], q: &Query, ctx: &mut Ctx) {
+    let tb = q.type_byte();
+    let acp = tb & 0x80 != 0;
+    let base = if tb == 0 { 1 } else { tb & 3 };
+    let idx = q.idx();
+    let tap = matches!(q, Query::Taproot { .. });
+    match q {
+        Query::Legacy { script, .. } | Query::Segwit { script, .. } => {
+            if script.len() >= 0xfc {
+                ctx.class(&format!("x:script-code:len={}", gx::len_class(script.len())));
+            }
+        }
+        Query::Taproot { annex, leaf, api, .. } => {
+            if let Some(a) = annex {
+                if a.len() >= 0xfc {
+                    ctx.class(&format!("x:annex:len={}", gx::len_class(a.len())));
+                }
+            }
+            if let Some((s, v, _)) = leaf {
+                if s.len() >= 0xfc {
+                    ctx.class(&format!("x:leaf-script:len={}", gx::len_class(s.len())));
+                }
+                if *api != TapApi::Generic {
+                    ctx.class(&format!("x:script-spend-api:leaf-version={:#04x}", v));
+                }
+            }
+            ctx.class(&format!("x:taproot-api:{:?}", api));
+        }
+    }
+    // a boundary-length spent script that the queried algorithm actually hashes
+    if tap && !unstated(q, tx.input.len()) {
+        for (j, s) in spent.iter().enumerate() {
+            if s.script_pubkey.len() >= 0xfc && (!acp || j == idx) {
+                ctx.class(&format!("x:hashed-spent-script:len={}", gx::len_class(s.script_pubkey.len())));
+            }
+        }
+    }
+    for (k, o) in tx.output.iter().enumerate() {
+        if o.script_pubkey.len() >= 0xfc && (base == 1 || (base == 3 && k == idx)) {
+            ctx.class(&format!("x:hashed-output-script:len={}", gx::len_class(o.script_pubkey.len())));
+        }
+    }
+    if tx.input.len() >= 0xfc {
+        ctx.class(&format!("x:inputs={:#x}:{}", tx.input.len(), q.kind()));
+    }
+    if tx.output.len() >= 0xfc {
+        ctx.class(&format!("x:outputs={:#x}:{}", tx.output.len(), q.kind()));
+    }
+    let nv = |j: usize| {
+        let i = &tx.input[j].asset_issuance;
+        enc::issuance_is_null(i) && *i != elements::AssetIssuance::null()
+    };
+    if idx < tx.input.len() && nv(idx) {
+        ctx.class("x:null-valued-issuance-with-entropy/nonce:signed-input");
+    } else if !acp && (0..tx.input.len()).any(nv) {
+        ctx.class("x:null-valued-issuance-with-entropy/nonce:other-input");
+    }
+    if tap && spent.iter().any(|s| !s.witness.is_empty()) {
+        ctx.class("x:spent-output-with-witness");
     }
 }
 
@@ -215,24 +412,36 @@ pub fn lib_answer<R: std::ops::Deref<Target = Transaction>>(
     q: &Query,
     want_message: bool,
 ) -> Result<(Answer, Option<Vec<u8>>), Failure> {
+    lib_answer_ord(cache, spent, q, want_message, false)
+}
+
+/// as `lib_answer`; with `message_first` the `*_encode_signing_data_to` entry point is called
+/// BEFORE the digest function, so that it meets the cache in whatever state earlier, different
+/// questions left it (the digest functions would otherwise always have prepared it)
+pub fn lib_answer_ord<R: std::ops::Deref<Target = Transaction>>(
+    cache: &mut SighashCache<R>,
+    spent: &[TxOut],
+    q: &Query,
+    want_message: bool,
+    message_first: bool,
+) -> Result<(Answer, Option<Vec<u8>>), Failure> {
     match q {
         Query::Legacy { idx, script, ty } => {
-            let d = guard::guard("legacy_sighash", 0, || cache.legacy_sighash(*idx, script, *ty).to_byte_array())?;
-            let m = if want_message {
+            let msg = |cache: &mut SighashCache<R>| -> Result<Vec<u8>, Failure> {
                 let mut v = Vec::new();
                 let r = guard::guard("encode_legacy_signing_data_to", 0, || cache.encode_legacy_signing_data_to(&mut v, *idx, script, *ty))?;
                 if let Err(e) = r {
                     return Err(Failure::new(format!("encode_legacy_signing_data_to failed on a Vec writer: {}", e)));
                 }
-                Some(v)
-            } else {
-                None
+                Ok(v)
             };
+            let before = if want_message && message_first { Some(msg(cache)?) } else { None };
+            let d = guard::guard("legacy_sighash", 0, || cache.legacy_sighash(*idx, script, *ty).to_byte_array())?;
+            let m = if want_message && !message_first { Some(msg(cache)?) } else { before };
             Ok((Answer::Digest(d), m))
         }
         Query::Segwit { idx, script, value, ty } => {
-            let d = guard::guard("segwitv0_sighash", 0, || cache.segwitv0_sighash(*idx, script, *value, *ty).to_byte_array())?;
-            let m = if want_message {
+            let msg = |cache: &mut SighashCache<R>| -> Result<Vec<u8>, Failure> {
                 let mut v = Vec::new();
                 let r = guard::guard("encode_segwitv0_signing_data_to", 0, || {
                     cache.encode_segwitv0_signing_data_to(&mut v, *idx, script, *value, *ty)
@@ -240,10 +449,11 @@ pub fn lib_answer<R: std::ops::Deref<Target = Transaction>>(
                 if let Err(e) = r {
                     return Err(Failure::new(format!("encode_segwitv0_signing_data_to failed on a Vec writer: {}", e)));
                 }
-                Some(v)
-            } else {
-                None
+                Ok(v)
             };
+            let before = if want_message && message_first { Some(msg(cache)?) } else { None };
+            let d = guard::guard("segwitv0_sighash", 0, || cache.segwitv0_sighash(*idx, script, *value, *ty).to_byte_array())?;
+            let m = if want_message && !message_first { Some(msg(cache)?) } else { before };
             Ok((Answer::Digest(d), m))
         }
         Query::Taproot { idx, ty, annex, leaf, prev, api, genesis } => {
@@ -277,23 +487,50 @@ pub fn lib_answer<R: std::ops::Deref<Target = Transaction>>(
                 PrevMode::OneWrongIndex => prevouts = Prevouts::One(other, &spent[other]),
             }
             let genesis_h = BlockHash::from_byte_array(*genesis);
+            // `Annex::new` and `LeafVersion::from_u8` are outside the property: a refusal is counted, not judged
             let annex_v = match annex {
-                Some(a) => match Annex::new(a) {
-                    Ok(x) => Some(x),
-                    Err(e) => return Err(Failure::new(format!("Annex::new rejected a 0x50-prefixed annex: {}", e))),
+                Some(a) => match guard::guard("Annex::new", a.len(), || Annex::new(a)) {
+                    Ok(Ok(x)) => Some(x),
+                    Ok(Err(e)) => return Ok((Answer::Skipped(format!("Annex::new refused a 0x50-prefixed annex: {}", e)), None)),
+                    Err(f) => return Ok((Answer::Skipped(format!("Annex::new: {}", f.msg)), None)),
                 },
                 None => None,
             };
+            let mut script_path: Option<ScriptPath> = None;
             let leaf_v: Option<(TapLeafHash, u32)> = match leaf {
                 Some((s, v, pos)) => {
-                    let ver = match LeafVersion::from_u8(*v) {
-                        Ok(v) => v,
-                        Err(e) => return Err(Failure::new(format!("LeafVersion::from_u8({:#x}) failed: {}", v, e))),
+                    let ver = if *v == 0xc4 {
+                        LeafVersion::TAPSCRIPT
+                    } else {
+                        match LeafVersion::from_u8(*v) {
+                            Ok(v) => v,
+                            Err(e) => return Ok((Answer::Skipped(format!("LeafVersion::from_u8({:#x}) refused: {}", v, e)), None)),
+                        }
                     };
-                    Some((guard::guard("TapLeafHash::from_script", 0, || TapLeafHash::from_script(s, ver))?, *pos))
+                    match api {
+                        TapApi::ScriptPathNew | TapApi::ScriptPathDefaults => {
+                            let sp = if *api == TapApi::ScriptPathDefaults { ScriptPath::with_defaults(s) } else { ScriptPath::new(s, *pos, ver) };
+                            let h = guard::guard("ScriptPath::leaf_hash", 0, || sp.leaf_hash())?;
+                            script_path = Some(sp);
+                            Some((h, *pos))
+                        }
+                        _ => Some((guard::guard("TapLeafHash::from_script", 0, || TapLeafHash::from_script(s, ver))?, *pos)),
+                    }
                 }
                 None => None,
             };
+            // message first (only for queries inside the quantifier): Ok(bytes) or the library's error
+            let mut before: Option<Result<Vec<u8>, String>> = None;
+            if want_message && message_first && !unstated(q, spent.len()) {
+                let mut v = Vec::new();
+                let r0 = guard::guard("taproot_encode_signing_data_to", 0, || {
+                    cache.taproot_encode_signing_data_to(&mut v, *idx, &prevouts, annex_v.clone(), leaf_v, *ty, genesis_h)
+                })?;
+                before = Some(match r0 {
+                    Ok(()) => Ok(v),
+                    Err(e) => Err(format!("{:?}", e)),
+                });
+            }
             let r = guard::guard("taproot sighash", 0, || match api {
                 TapApi::Generic => cache.taproot_sighash(*idx, &prevouts, annex_v.clone(), leaf_v, *ty, genesis_h),
                 TapApi::KeySpend => cache.taproot_key_spend_signature_hash(*idx, &prevouts, *ty, genesis_h),
@@ -301,10 +538,25 @@ pub fn lib_answer<R: std::ops::Deref<Target = Transaction>>(
                     Some((h, _)) => cache.taproot_script_spend_signature_hash(*idx, &prevouts, h, *ty, genesis_h),
                     None => cache.taproot_key_spend_signature_hash(*idx, &prevouts, *ty, genesis_h),
                 },
-            })?;
+                TapApi::ScriptPathNew | TapApi::ScriptPathDefaults => match script_path.clone() {
+                    Some(sp) => cache.taproot_script_spend_signature_hash(*idx, &prevouts, sp, *ty, genesis_h),
+                    None => cache.taproot_key_spend_signature_hash(*idx, &prevouts, *ty, genesis_h),
+                },
+            });
+            let r = match r {
+                Ok(r) => r,
+                // outside the quantifier a panic is as little stated as an error or a digest
+                Err(f) if f.panic_loc.is_some() && unstated(q, spent.len()) => return Ok((Answer::Err(format!("panic: {}", f.msg)), None)),
+                Err(f) => return Err(f),
+            };
             match r {
                 Ok(h) => {
-                    let m = if want_message {
+                    let m = if let Some(b) = before {
+                        match b {
+                            Ok(v) => Some(v),
+                            Err(e) => return Err(Failure::new(format!("taproot_encode_signing_data_to (called first) errs where taproot_sighash succeeds: {}", e))),
+                        }
+                    } else if want_message {
                         let mut v = Vec::new();
                         let r2 = guard::guard("taproot_encode_signing_data_to", 0, || {
                             cache.taproot_encode_signing_data_to(&mut v, *idx, &prevouts, annex_v.clone(), leaf_v, *ty, genesis_h)
@@ -318,10 +570,28 @@ pub fn lib_answer<R: std::ops::Deref<Target = Transaction>>(
                     };
                     Ok((Answer::Digest(h.to_byte_array()), m))
                 }
-                Err(e) => Ok((Answer::Err(format!("{:?}", e)), None)),
+                Err(e) => {
+                    if let Some(Ok(_)) = before {
+                        return Err(Failure::new(format!("taproot_encode_signing_data_to (called first) succeeds where the digest function answers {:?}\n query={}", e, q.render())));
+                    }
+                    Ok((Answer::Err(format!("{:?}", e)), None))
+                }
             }
         }
     }
+}
+
+/// put a query from outside the quantifier to a throw-away cache and count what the library does
+pub fn observe_unstated(tx: &Transaction, spent: &[TxOut], q: &Query, ctx: &mut Ctx) {
+    let mut cache = SighashCache::new(tx);
+    let cls = match lib_answer(&mut cache, spent, q, false) {
+        Ok((Answer::Digest(_), _)) => "not-stated:library-gives-digest",
+        Ok((Answer::Err(e), _)) if e.starts_with("panic") => "not-stated:library-panics",
+        Ok((Answer::Err(_), _)) => "not-stated:library-gives-error",
+        Ok((Answer::Skipped(_), _)) => "not-stated:skipped",
+        Err(_) => "not-stated:library-fails-otherwise",
+    };
+    ctx.class(cls);
 }
 
 /// Known finding keys (status decided by /verif/known_findings.json)
@@ -331,9 +601,24 @@ pub const KF_ACP_ONE: &str = "taproot-all-anyonecanpay-rejects-prevouts-one";
 /// compare library and reference for one query; Ok(true) when they agree (or differ by a listed
 /// known finding)
 pub fn compare(tx: &Transaction, spent: &[TxOut], q: &Query, lib: &(Answer, Option<Vec<u8>>), ctx: &mut Ctx) -> R {
+    if let Answer::Skipped(why) = &lib.0 {
+        ctx.class(&format!("skipped:{}", why.split(' ').next().unwrap_or("")));
+        return Ok(());
+    }
+    if unstated(q, tx.input.len()) {
+        // outside the quantifier (wrong number of spent outputs, another input's spent output, input
+        // index beyond the inputs): nothing is demanded, the outcome is only counted
+        ctx.class(match &lib.0 {
+            Answer::Digest(_) => "not-stated:library-gives-digest",
+            Answer::Err(e) if e.starts_with("panic") => "not-stated:library-panics",
+            _ => "not-stated:library-gives-error",
+        });
+        return Ok(());
+    }
     let (want, want_msg) = ref_answer(tx, spent, q);
     ctx.eval();
     match (&lib.0, &want) {
+        (Answer::Skipped(_), _) | (_, Answer::Skipped(_)) => {}
         (Answer::Digest(a), Answer::Digest(b)) => {
             if a != b {
                 if let Query::Legacy { idx, ty, .. } = q {
@@ -351,7 +636,9 @@ pub fn compare(tx: &Transaction, spent: &[TxOut], q: &Query, lib: &(Answer, Opti
                 )));
             }
             if let (Some(lm), Some(wm)) = (&lib.1, &want_msg) {
-                ensure_eq!(hex(lm), hex(wm), "{} signing message differs from the reference ({})", q.kind(), q.render());
+                if lm != wm {
+                    ensure_eq!(hex(lm), hex(wm), "{} signing message differs from the reference ({})", q.kind(), q.render());
+                }
             }
         }
         (Answer::Err(_), Answer::Err(_)) => {}
@@ -377,17 +664,43 @@ pub fn compare(tx: &Transaction, spent: &[TxOut], q: &Query, lib: &(Answer, Opti
 }
 
 fn differential(t: &mut Tape, ctx: &mut Ctx) -> R {
-    let case = gen_case(t);
+    differential_impl(t, ctx, false)
+}
+
+/// the same check over the extended generators: lengths at the compact-size boundaries (script code,
+/// leaf script, annex, spent / output scripts, input / output counts), the `ScriptPath` entry point,
+/// null-valued issuances with entropy / nonce, spent outputs with witness; here the shared cache is
+/// also asked for the signing message
+fn differential_x(t: &mut Tape, ctx: &mut Ctx) -> R {
+    differential_impl(t, ctx, true)
+}
+
+fn differential_impl(t: &mut Tape, ctx: &mut Ctx, ext: bool) -> R {
+    let case = if ext { gen_case_x(t) } else { gen_case(t) };
     let nq = 1 + t.below(4);
     // every query is asked twice: of a cache created for it alone, and of one cache object shared by all
     // queries of the case (the digests the statement defines do not depend on what was asked before)
     let mut shared = SighashCache::new(&case.tx);
     for qi in 0..nq {
-        let q = gen_query(t, &case, true);
+        let q = if ext { gen_query_x(t, case.tx.input.len(), true) } else { gen_query(t, &case, true) };
+        let shared_message = ext && t.chance(64);
+        if unstated(&q, case.tx.input.len()) {
+            observe_unstated(&case.tx, &case.spent, &q, ctx);
+            if let Query::Taproot { prev, .. } = &q {
+                ctx.class(&format!("taproot:prevouts:{:?}", prev));
+            }
+            continue;
+        }
         let mut cache = SighashCache::new(&case.tx);
         let lib = lib_answer(&mut cache, &case.spent, &q, true)?;
         compare(&case.tx, &case.spent, &q, &lib, ctx)?;
-        let lib_shared = lib_answer(&mut shared, &case.spent, &q, false)?;
+        let lib_shared = lib_answer_ord(&mut shared, &case.spent, &q, shared_message, true)?;
+        if ext {
+            class_x(&case.tx, &case.spent, &q, ctx);
+            if shared_message {
+                ctx.class("x:signing-message-from-shared-cache");
+            }
+        }
         if let Err(mut f) = compare(&case.tx, &case.spent, &q, &lib_shared, ctx) {
             f.msg = clip(format!("(query {} of {} on one shared SighashCache) {}", qi + 1, nq, f.msg));
             return Err(f);
@@ -411,13 +724,27 @@ fn differential(t: &mut Tape, ctx: &mut Ctx) -> R {
         if matches!(lib.0, Answer::Err(_)) {
             ctx.class("answer:error");
         }
-        if case.tx.input.len() >= 2 && interesting {
+        let x_shape = ext
+            && (case.tx.input.len() >= 0xfc
+                || case.tx.output.len() >= 0xfc
+                || case.spent.iter().any(|s| s.script_pubkey.len() >= 0xfc)
+                || case.tx.output.iter().any(|o| o.script_pubkey.len() >= 0xfc)
+                || case.tx.input.iter().any(|i| enc::issuance_is_null(&i.asset_issuance) && i.asset_issuance != elements::AssetIssuance::null())
+                || match &q {
+                    Query::Legacy { script, .. } | Query::Segwit { script, .. } => script.len() >= 0xfc,
+                    Query::Taproot { annex, leaf, api, .. } => {
+                        annex.as_ref().map_or(false, |a| a.len() >= 0xfc)
+                            || leaf.as_ref().map_or(false, |(s, _, _)| s.len() >= 0xfc)
+                            || matches!(api, TapApi::ScriptPathNew | TapApi::ScriptPathDefaults)
+                    }
+                });
+        if x_shape || (case.tx.input.len() >= 2 && interesting) {
             ctx.nontrivial(&(crate::refimpl::enc::tx_full(&case.tx), format!("{}", q.render())));
         }
-        let cls = format!("query:{}", q.kind());
+        let cls = format!("{}query:{}", if ext { "x-" } else { "" }, q.kind());
         if ctx.wants_sample(&cls) && case.tx.input.len() >= 2 {
             ctx.sample(&cls, || json!({"inputs": case.tx.input.len(), "outputs": case.tx.output.len(), "features": feats, "query": q.render(),
-                "answer": match &lib.0 { Answer::Digest(d) => hex(d), Answer::Err(e) => e.clone() }}));
+                "answer": match &lib.0 { Answer::Digest(d) => hex(d), Answer::Err(e) | Answer::Skipped(e) => e.clone() }}));
         }
     }
     Ok(())
@@ -442,6 +769,20 @@ enum Mod {
     SpentScript(usize),
     IssuanceAmount(usize),
     AddOutput,
+    // added after the first 15 (drawn last, so the tape positions of the older ones are unchanged)
+    PeginFlag(usize),
+    InflationProof(usize),
+    /// entropy / blinding nonce of the input's issuance (also of a null-valued one, which is not committed)
+    IssuanceEntropy(usize),
+    SpentNonce(usize),
+    SpentWitness(usize),
+    OutputNonce(usize),
+    OutputSurjection(usize),
+}
+
+fn has_iss(case: &Case, j: usize) -> bool {
+    // the consensus rule (both amounts null = no issuance), from the reference encoder
+    !enc::issuance_is_null(&case.tx.input[j].asset_issuance)
 }
 
 /// Expected effect from the algorithms' commitment structure: Some(true) must change,
@@ -494,7 +835,48 @@ fn expected(q: &Query, case: &Case, m: Mod) -> Option<bool> {
             } else if !acp {
                 true
             } else {
-                j == idx && case.tx.input[j].has_issuance()
+                j == idx && has_iss(case, j)
+            }
+        }
+        Mod::InflationProof(j) => {
+            if !tap {
+                false
+            } else if !acp {
+                true
+            } else {
+                j == idx && has_iss(case, j)
+            }
+        }
+        // legacy folds the flag into the serialized outpoint index, taproot hashes the outpoint flag;
+        // BIP143's outpoint is the plain COutPoint
+        Mod::PeginFlag(j) => {
+            if matches!(q, Query::Segwit { .. }) {
+                false
+            } else {
+                j == idx || !acp
+            }
+        }
+        Mod::IssuanceEntropy(j) => has_iss(case, j) && (j == idx || !acp),
+        Mod::SpentNonce(_) | Mod::SpentWitness(_) => {
+            if !tap {
+                return None;
+            }
+            false
+        }
+        Mod::OutputNonce(k) => match base {
+            1 => true,
+            2 => false,
+            _ => k == idx,
+        },
+        Mod::OutputSurjection(k) => {
+            if !tap {
+                false
+            } else {
+                match base {
+                    1 => true,
+                    2 => false,
+                    _ => k == idx,
+                }
             }
         }
         Mod::SpentAsset(j) | Mod::SpentValue(j) | Mod::SpentScript(j) => {
@@ -576,7 +958,7 @@ fn apply_mod(t: &mut Tape, case: &mut Case, m: Mod) -> bool {
             case.spent[j].script_pubkey = Script::from(b);
         }
         Mod::IssuanceAmount(j) => {
-            if !case.tx.input[j].has_issuance() {
+            if !has_iss(case, j) {
                 return false;
             }
             let cur = case.tx.input[j].asset_issuance.amount;
@@ -591,6 +973,63 @@ fn apply_mod(t: &mut Tape, case: &mut Case, m: Mod) -> bool {
         Mod::AddOutput => {
             let so = TxOpts { big: false, witness: false, ..TxOpts::default() };
             case.tx.output.push(gen::gen_txout(t, &so));
+        }
+        Mod::PeginFlag(j) => case.tx.input[j].is_pegin = !case.tx.input[j].is_pegin,
+        Mod::InflationProof(j) => {
+            let w = &mut case.tx.input[j].witness;
+            let cur = w.inflation_keys_rangeproof.clone();
+            let mut i = t.below(p.rangeproofs.len());
+            if cur.as_deref() == Some(&p.rangeproofs[i]) {
+                i = (i + 1) % p.rangeproofs.len();
+            }
+            w.inflation_keys_rangeproof = Some(Box::new(p.rangeproofs[i].clone()));
+        }
+        Mod::IssuanceEntropy(j) => {
+            let iss = &mut case.tx.input[j].asset_issuance;
+            if t.bool() {
+                let cur = iss.asset_blinding_nonce;
+                let mut n = gen::gen_tweak(t);
+                if n == cur {
+                    n = if cur == p.tweaks[0] { p.tweaks[1] } else { p.tweaks[0] };
+                }
+                iss.asset_blinding_nonce = n;
+            } else {
+                iss.asset_entropy[t.below(32)] ^= 1 << t.below(8);
+            }
+        }
+        Mod::SpentNonce(j) => {
+            let cur = case.spent[j].nonce;
+            let mut n = gen::gen_nonce(t);
+            if n == cur {
+                n = if cur.is_null() { elements::confidential::Nonce::Explicit([9; 32]) } else { elements::confidential::Nonce::Null };
+            }
+            case.spent[j].nonce = n;
+        }
+        Mod::SpentWitness(j) => {
+            let w = &mut case.spent[j].witness;
+            let cur = w.rangeproof.clone();
+            let mut i = t.below(p.rangeproofs.len());
+            if cur.as_deref() == Some(&p.rangeproofs[i]) {
+                i = (i + 1) % p.rangeproofs.len();
+            }
+            w.rangeproof = Some(Box::new(p.rangeproofs[i].clone()));
+        }
+        Mod::OutputNonce(k) => {
+            let cur = case.tx.output[k].nonce;
+            let mut n = gen::gen_nonce(t);
+            if n == cur {
+                n = if cur.is_null() { elements::confidential::Nonce::Explicit([9; 32]) } else { elements::confidential::Nonce::Null };
+            }
+            case.tx.output[k].nonce = n;
+        }
+        Mod::OutputSurjection(k) => {
+            let w = &mut case.tx.output[k].witness;
+            let cur = w.surjection_proof.clone();
+            let mut i = t.below(p.surjproofs.len());
+            if cur.as_deref() == Some(&p.surjproofs[i]) {
+                i = (i + 1) % p.surjproofs.len();
+            }
+            w.surjection_proof = Some(Box::new(p.surjproofs[i].clone()));
         }
     }
     true
@@ -623,18 +1062,24 @@ fn metamorphic(t: &mut Tape, ctx: &mut Ctx) -> R {
     for k in 0..nout {
         mods.extend([Mod::OutputScript(k), Mod::OutputWitness(k)]);
     }
+    for j in 0..nin {
+        mods.extend([Mod::PeginFlag(j), Mod::InflationProof(j), Mod::IssuanceEntropy(j), Mod::SpentNonce(j), Mod::SpentWitness(j)]);
+    }
+    for k in 0..nout {
+        mods.extend([Mod::OutputNonce(k), Mod::OutputSurjection(k)]);
+    }
     for m in mods {
         let Some(exp) = expected(&q, &case, m) else { continue };
         let mut c2 = Case { tx: case.tx.clone(), spent: case.spent.clone() };
         if !apply_mod(t, &mut c2, m) {
             continue;
         }
-        if let (Mod::SequenceOf(j), Query::Legacy { .. } | Query::Segwit { .. }) = (m, &q) {
-            let _ = j;
-        }
         let mut cache2 = SighashCache::new(&c2.tx);
         let a2 = lib_answer(&mut cache2, &c2.spent, &q, false)?.0;
         ctx.eval();
+        if matches!(a2, Answer::Skipped(_)) {
+            continue;
+        }
         let Answer::Digest(d2) = a2 else {
             return Err(Failure::new(format!("{} sighash turned into an error after modification {:?} ({})", q.kind(), m, q.render())));
         };
@@ -681,19 +1126,34 @@ pub fn property() -> Property {
         id: "C03",
         rule: "differential: tape-generated transactions (1..5 inputs, 0..5 outputs, pegin/issuance/reissuance/confidential \
                fields, issuance and output proofs) with spent outputs; 1-4 queries each over legacy/segwit-v0/taproot, every \
-               input index, all 6 ECDSA / 7 Schnorr types, key/script path, annex, code-separator, Prevouts All/One (+wrong \
-               length, wrong index, out-of-range ANYONECANPAY index); oracle: digest and exact signing message equal the \
-               harness's independent implementation (anchored on the 20 pinned Elements Core vectors); errors where the \
-               algorithm defines them. metamorphic: 15 kinds of single-field modification at every input/output position \
-               against an explicit committed / not-committed table per (algorithm, hash type). Non-trivial: >=2 inputs and \
-               (index>0 or pegin/issuance/confidential field or SINGLE without output); distinct by (tx encoding, query).",
+               input index, all 6 ECDSA / 7 Schnorr types, key/script path, annex, code-separator, Prevouts All/One; oracle: \
+               digest and exact signing message equal the harness's independent implementation (anchored on the 20 pinned \
+               Elements Core vectors), asked of a fresh cache and of one cache shared by the case's queries; an error is \
+               demanded only for a single spent output with a type that needs all of them and for taproot SINGLE without \
+               output. Queries outside the quantifier (Prevouts::All of the wrong length, One for another input under \
+               ANYONECANPAY, input index beyond the inputs) are put to a throw-away cache only and the outcome is \
+               counted, not judged (classes not-stated:*); a refusal by Annex::new / LeafVersion::from_u8 is counted (skipped:*), not judged. \
+               differential_x: the same check over extended generators: script code / leaf script / annex / one spent \
+               script / one output script of length 0xfc,0xfd,0xfe,0xff,0x100,0x1fd and rarely 0xffff,0x10000,0x10001; \
+               0xfc/0xfd/0xfe inputs or outputs (1/40 each); inputs whose issuance is null by value but has entropy / \
+               blinding nonce set (treated as no issuance); spent outputs carrying a witness; the script-spend API through \
+               ScriptPath::new / with_defaults (code-separator 0xffffffff) and with all six leaf versions; signing message \
+               also requested from the shared cache (1/4). metamorphic: 22 kinds of single-field modification at every \
+               input/output position against an explicit committed / not-committed table per (algorithm, hash type) \
+               (incl. pegin flag, inflation-keys proof, issuance entropy / nonce of real and of null-valued issuances, spent \
+               nonce / witness, output nonce / surjection proof). Non-trivial: >=2 inputs and (index>0 or \
+               pegin/issuance/confidential field or SINGLE without output), or any of the extended shapes; distinct by (tx \
+               encoding, query).",
         assumptions: &[
             "the legacy serialization folds the pegin/issuance flag bits into the outpoint index, as the pinned Elements Core issuance vector requires",
-            "input indices >= number of inputs are only generated where the algorithm defines the outcome (taproot ANYONECANPAY => error); legacy/segwit document a panic there",
+            "input indices >= number of inputs are only generated for taproot ANYONECANPAY (library returns an error; not judged); legacy/segwit document a panic there",
+            "an issuance is present iff one of its two amounts is non-null (CAssetIssuance::IsNull), whatever entropy and blinding nonce hold",
+            "taproot_script_spend_signature_hash documents the code-separator position 0xffffffff; ScriptPath values are built with that position",
         ],
         subs: vec![
             Sub { name: "differential", kind: Kind::Tape { max_len: 3000, quick: 400_000, thorough: 4_000_000, f: differential } },
-            Sub { name: "metamorphic", kind: Kind::Tape { max_len: 3000, quick: 80_000, thorough: 800_000, f: metamorphic } },
+            Sub { name: "metamorphic", kind: Kind::Tape { max_len: 3000, quick: 64_000, thorough: 640_000, f: metamorphic } },
+            Sub { name: "differential_x", kind: Kind::Tape { max_len: 3000, quick: 100_000, thorough: 2_000_000, f: differential_x } },
         ],
         known: knowns(),
     }
